@@ -199,11 +199,16 @@ Inductive site_key :=
 | SSecureCrt    (* secure-crt-secret *)
 | SSecureCA     (* secure-verify-ca-secret *)
 | SAuthSecret   (* auth-secret *)
-| SAuthURL.     (* auth-url with the svc:// form, already parsed: host and port *)
+| SAuthURL      (* auth-url with the svc:// form, already parsed: host and port *)
+| SGwBackend    (* HTTPRoute / TCPRoute rules[].backendRefs[].name (Gateway API) *)
+| SGwCert.      (* Gateway listeners[].tls.certificateRefs[].name (Gateway API) *)
 
 (* st_src = namespace of the Ingress or Service that carries the reference (Source);
    None = the value comes from the global ConfigMap. For SAuthURL st_val is the host
-   part of the URL ("name" or "namespace/name") and st_port its port. *)
+   part of the URL ("name" or "namespace/name") and st_port its port. For the two
+   Gateway API sites st_src is the namespace of the route (SGwBackend) or of the Gateway
+   (SGwCert), st_val the name member of the reference and st_port its namespace member,
+   which gateway.go createBackend and readCertRef do not read ("TODO implement"). *)
 Record site := {
   st_key : site_key;
   st_src : option string;
@@ -287,6 +292,12 @@ Definition resolve_site (d : dyn) (w : world) (u : userlists) (s : site) : res *
         else if is_some_str (st_src s) && negb (String.eqb ns (src_ns s)) && negb (d_svc d) then (RErr ECross, u)
         else if has_backend w ns name (st_port s) then (ROk ns name, u)
         else (RErr ENotFound, u)
+  | SGwBackend =>
+      (* svcName := routeSource.namespace + "/" + back.Name; c.cache.GetService("", svcName) *)
+      (get_service d w "" (src_ns s ++ "/" ++ st_val s)%string, u)
+  | SGwCert =>
+      (* c.cache.GetTLSSecretPath(gateway namespace, certRef.Name) *)
+      (get_tls d w (src_ns s) (st_val s), u)
   end.
 
 (* all the sites, in the order the converter visits them (the order of the backends is
